@@ -32,3 +32,5 @@ func vfSortOblig(what string, c bool) {
 func vfAnd(a, b bool) bool { return a && b }
 func vfOr(a, b bool) bool  { return a || b }
 func vfNot(a bool) bool    { return !a }
+
+func vfPick(n int) int { return 0 }
